@@ -214,13 +214,33 @@ class CounterVal(dict):
     """collections.Counter"""
 
 
+class GenList(list):
+    """The items a generator expression will produce (evaluated eagerly): a list to every consumer, and next() takes
+    items off its front."""
+
+
 class SetVal(list):
     """A set, kept as a duplicate-free list in insertion order (iteration order of a real set is unspecified:
     consumers that depend on it should sort)."""
 
     def add_(self, x):
+        # concrete hashable members are looked up in an index (sets of thousands of bin numbers); the index is rebuilt
+        # when the list was changed behind its back (copy, remove)
+        idx = self.__dict__.get("_idx")
+        if idx is None or self.__dict__.get("_n") != len(self):
+            idx = {(type(y), y) for y in self if type(y) in (int, str, bool, float)}
+            self._idx = idx
+        if type(x) in (int, str, bool, float):
+            if (type(x), x) in idx:
+                self._n = len(self)
+                return
+            idx.add((type(x), x))
+            self.append(x)
+            self._n = len(self)
+            return
         if not any(x is y or (type(x) is type(y) and x == y) for y in self):
             self.append(x)
+        self._n = len(self)
 
 
 def _setval(items):
@@ -818,7 +838,7 @@ class Interp:
         if node.id in ("str", "int", "list", "tuple", "dict", "set", "bytes", "float", "bool", "object"):
             return TypeVal(node.id)
         if node.id in ("isinstance", "len", "map", "locals", "hasattr", "any", "all", "sorted", "enumerate",
-                       "range", "zip", "getattr", "iter", "print", "min", "max", "repr", "type", "ord", "chr", "hex", "setattr", "delattr", "next", "vars", "callable", "sum", "abs", "hash", "float", "slice", "open", "issubclass", "reversed", "divmod", "format", "filter"):
+                       "range", "zip", "getattr", "iter", "print", "min", "max", "repr", "type", "ord", "chr", "hex", "setattr", "delattr", "next", "vars", "callable", "sum", "abs", "hash", "float", "slice", "open", "issubclass", "reversed", "divmod", "format", "filter", "frozenset"):
             return Builtin(node.id)
         if node.id in ("ValueError", "TypeError", "KeyError", "NotImplementedError", "Exception", "StopIteration"):
             return TypeVal(node.id)
@@ -1094,6 +1114,12 @@ class Interp:
             return not t
         if isinstance(node.op, ast.USub) and isinstance(v, (int, float)):
             return -v
+        if isinstance(node.op, ast.USub) and isinstance(v, (Opaque, Sym)):
+            return Sym("neg(%s)" % v.name, "any", None)       # an object's own __neg__: named, for the caller to interpret
+        if isinstance(node.op, ast.UAdd) and isinstance(v, (int, float)):
+            return v
+        if isinstance(node.op, ast.Invert) and isinstance(v, int):
+            return ~v
         raise Unsupported("unary op at line %s" % node.lineno)
 
     def e_BoolOp(self, node, env):
@@ -1509,7 +1535,9 @@ class Interp:
             return RepList(self.eval(node.elt, e2), it)
         raise Unsupported("comprehension over %r" % (it,))
 
-    e_GeneratorExp = e_ListComp
+    def e_GeneratorExp(self, node, env):
+        v = self.e_ListComp(node, env)
+        return GenList(v) if type(v) is list else v
     e_SetComp = e_ListComp
 
     def e_DictComp(self, node, env):
@@ -1803,6 +1831,11 @@ class Interp:
             return slice(*pos)
         if name == "abs" and pos and isinstance(pos[0], (int, float)):
             return abs(pos[0])
+        if name in ("max", "min") and len(pos) == 2 and not kw and any(isinstance(x, Sym) for x in pos) and all(isinstance(x, (Sym, int, float)) and not isinstance(x, bool) for x in pos):
+            # of two numbers, one symbolic: the comparison that picks the result is a fork
+            a_, b_ = pos
+            first_wins = self.decide(ACond(">=" if name == "max" else "<=", a_, b_, node), node)
+            return a_ if first_wins else b_
         if name in ("sorted", "max", "min") and len(pos) == 1 and isinstance(pos[0], (list, tuple, dict)) and set(kw) <= {"key", "reverse"}:
             items = list(pos[0])
             keyf = kw.get("key")
@@ -1835,6 +1868,12 @@ class Interp:
             return HostIter(enumerate(pos[0], *pos[1:]), "enumerate(%s)" % pos[0].name)
         if name == "enumerate" and isinstance(pos[0], (list, tuple)):
             return [(i, x) for i, x in enumerate(pos[0], *pos[1:])]
+        if name == "next" and pos and isinstance(pos[0], GenList):
+            if pos[0]:
+                return pos[0].pop(0)
+            if len(pos) > 1:
+                return pos[1]
+            raise RaiseEx("StopIteration", "", node)
         if name == "next" and pos and isinstance(pos[0], (StreamVal, HostIter)):
             try:
                 return next(pos[0])
